@@ -35,7 +35,7 @@ def to_scenario(sid, log, q, b, rng):
                 q2 = rng.choice([1, 2, 4, 8])
                 nq, nb = rng.choice([(q2, q2 * rng.choice([1, 2])), (cur[0], cur[1] * 2), (cur[0], max(1, cur[1] // 2)), (cur[0] * 2, cur[1])])
             steps.append({"k": "resize", "qps": nq, "burst": nb})
-    return {"id": sid, "qps": q, "burst": b, "steps": steps}
+    return {"id": sid, "qps": q, "burst": b, "steps": steps, "init": ["", "mif", "exempt", ""][sid % 4]}     # what the schema was before it became this token bucket
 
 
 def main(tier, replay):
@@ -75,7 +75,7 @@ def main(tier, replay):
                 steps = []
                 for k in range(60 if tier == "quick" else 600):
                     steps += [{"k": "call", "n": rng.choice([4, 8, 16])}, {"k": "sleep", "ms": rng.choice([0, 125, 500])}, {"k": "call", "n": 3}, {"k": "recreate", "n": k}]
-                scs.append({"id": len(scs) + 1, "qps": q, "burst": b, "steps": steps})
+                scs.append({"id": len(scs) + 1, "qps": q, "burst": b, "steps": steps, "init": ["", "mif", "exempt"][len(scs) % 3]})
         binp = os.path.join(wd, "tbucket.test")
         vlib.go_test_build("./tbucket", binp)
         traces, crashed = vlib.run_test_driver(binp, scs, wd, timeout=1200)
